@@ -79,6 +79,7 @@ class Mat:
         return Mat(-self.a)
 
     def __truediv__(self, k):
+        Mat.ctl.tick("div")  # the mini-language's `/ 2`: element arithmetic of the user's type is a callback as well
         return Mat(self.a / k)
 
     def __mul__(self, k):
